@@ -670,6 +670,28 @@ def wrappers(index, rep, rule) -> None:
                 kw = {k.arg: src(k.value) for k in r.keywords}
                 pos = [src(a) for a in r.args]
                 vf = kw.get('visibility_function', '')
+                # a module-level constant bound once to a registry entry, or the registered
+                # function itself, denotes the same function as the lookup by name
+                vnode = next((k.value for k in r.keywords if k.arg == 'visibility_function'),
+                             None)
+                for _ in range(3):
+                    if isinstance(vnode, ast.Name):
+                        binds = [s_ for s_ in f.module.tree.body
+                                 if isinstance(s_, (ast.Assign, ast.AnnAssign)) and any(
+                                     isinstance(t_, ast.Name) and t_.id == vnode.id for t_ in (
+                                         s_.targets if isinstance(s_, ast.Assign)
+                                         else [s_.target]))]
+                        if len(binds) == 1 and binds[0].value is not None:
+                            vnode = binds[0].value
+                            continue
+                    break
+                if isinstance(vnode, (ast.Name, ast.Attribute)):
+                    tgt = index.resolve_callee(f.module, vnode, None)
+                    keys = [k_ for k_, v_ in vis.items() if v_ is tgt]
+                    if len(keys) == 1:
+                        vf = f"visibility_function_registry['{keys[0]}']"
+                elif vnode is not None:
+                    vf = src(vnode)
                 ok = pos[:1] == [state] and kw.get('area') == 'area' and kw.get('rng') == 'rng' \
                     and vf in (f"visibility_function_registry['{name}']",
                                f'visibility_function_registry["{name}"]')
